@@ -24,6 +24,7 @@ import SvModel.Proofs.SysInv
 import SvModel.Proofs.CopyAssign
 import SvModel.Proofs.SwapSys
 import SvModel.Proofs.MoveCtorAll
+import SvModel.Proofs.MoveAssignAll
 import SvModel.Api
 
 namespace SvModel.System
@@ -38,6 +39,7 @@ inductive MOp (α : Type) where
   | copyAssign (c o : Nat)                   -- c = o (operator= / assign (const small_vector&)), equal or non-propagating allocators
   | swap (c o : Nat)                         -- c.swap (o), same type; allocators equal or propagating on swap
   | ctorMove (c o : Nat)                     -- small_vector (std::move (o)), any pair of inline capacities
+  | moveAssign (c o : Nat)                   -- c = std::move (o), any pair of inline capacities, any allocator relation
 
 structure St (α : Type) where
   w : World α
@@ -52,6 +54,8 @@ def MOp.valid (cfg : Cfg) (U : List Nat) (s : St α) : MOp α → Prop
   | .swap c o => c ∈ s.A ∧ o ∈ s.A ∧ c ≠ o ∧ (s.w.hdr c).N = (s.w.hdr o).N ∧
       ((s.w.hdr c).N = 0 → (s.w.hdr c).inl = (s.w.hdr o).inl) ∧ SwapAllocOK cfg s.w c o
   | .ctorMove c o => c ∈ U ∧ c ∉ s.A ∧ o ∈ s.A ∧ ((s.w.hdr c).N = 0 → (s.w.hdr o).N = 0 → (s.w.hdr c).inl = (s.w.hdr o).inl)
+  | .moveAssign c o => c ∈ s.A ∧ o ∈ s.A ∧ c ≠ o ∧ ((s.w.hdr c).N = 0 → (s.w.hdr o).N = 0 → (s.w.hdr c).inl = (s.w.hdr o).inl) ∧
+      (allocationsAreMovable cfg.policy = true → cfg.policy.pocma = true ∨ (s.w.hdr c).alloc = (s.w.hdr o).alloc)
 
 def MOp.run (cfg : Cfg) (w : World α) : MOp α → M α Unit
   | .ctorVals c a vs => ctorFill cfg c a true (vs.map Src.ext)
@@ -61,6 +65,7 @@ def MOp.run (cfg : Cfg) (w : World α) : MOp α → M α Unit
   | .copyAssign c o => SvModel.copyAssign cfg c o
   | .swap c o => SvModel.swap cfg c o
   | .ctorMove c o => SvModel.ctorMove cfg c o
+  | .moveAssign c o => SvModel.moveAssign cfg c o
 
 /-- one call: install the fault list, run; a constructor that returns adds its container, a destructor removes it -/
 def step (cfg : Cfg) (s : St α) (x : MOp α × List Nat) : St α :=
@@ -70,7 +75,7 @@ def step (cfg : Cfg) (s : St α) (x : MOp α × List Nat) : St α :=
       { w := w', A := match x.1 with
                      | .ctorVals c _ _ | .ctorCopy c _ _ | .ctorMove c _ => c :: s.A
                      | .dtor c => s.A.filter (· ≠ c)
-                     | .on _ _ | .copyAssign _ _ | .swap _ _ => s.A }
+                     | .on _ _ | .copyAssign _ _ | .swap _ _ | .moveAssign _ _ => s.A }
   | .thrown _ w' => { w := w', A := s.A }
 
 def run (cfg : Cfg) : St α → List (MOp α × List Nat) → St α
@@ -188,6 +193,13 @@ theorem step_sys (cfg : Cfg) (U : List Nat) (hpol : StrongPolicy cfg) (s : St α
     cases hr : SvModel.ctorMove cfg c o w0 with
     | ok r w' => rw [hr] at h; simp only [MOp.run, hr]; exact h.1
     | thrown e w' => rw [hr] at h; simp only [MOp.run, hr]; exact h.1
+  | moveAssign c o =>
+    obtain ⟨hc, ho, hco, hnull, hal⟩ := hv
+    rw [← hh0] at hnull hal
+    have h := SysAll.moveAssign hs0 hc ho hco hnull hal
+    cases hr : SvModel.moveAssign cfg c o w0 with
+    | ok r w' => rw [hr] at h; simp only [MOp.run, hr]; exact h.1
+    | thrown e w' => rw [hr] at h; simp only [MOp.run, hr]; exact h.1
 
 /-- C02 / C03 / C04 / C06 over histories of several interacting containers -/
 theorem reachable_sys (cfg : Cfg) (U : List Nat) (hpol : StrongPolicy cfg) :
@@ -222,12 +234,12 @@ def Tracks (s : St α) (σ : Nat → List (Val α)) : Prop := ∀ c ∈ s.A, Hol
 /-- the containers a call writes to -/
 def MOp.targets : MOp α → List Nat
   | .ctorVals c _ _ | .ctorCopy c _ _ | .dtor c | .on c _ | .copyAssign c _ => [c]
-  | .swap c o | .ctorMove c o => [c, o]
+  | .swap c o | .ctorMove c o | .moveAssign c o => [c, o]
 
 /-- the containers whose contents after a returning call the standard leaves unspecified ("valid but unspecified"):
     the source of an element-wise move -/
 def MOp.unspecified : MOp α → List Nat
-  | .ctorMove _ o => [o]
+  | .ctorMove _ o | .moveAssign _ o => [o]
   | _ => []
 
 /-- what std::vector does, for a call that returns -/
@@ -238,7 +250,7 @@ def MOp.spec (σ : Nat → List (Val α)) : MOp α → Nat → List (Val α)
   | .on c op => upd σ c (op.spec (σ c))
   | .copyAssign c o => upd σ c (σ o)
   | .swap c o => upd (upd σ c (σ o)) o (σ c)
-  | .ctorMove c o => upd σ c (σ o)          -- the source: see `MOp.unspecified`
+  | .ctorMove c o | .moveAssign c o => upd σ c (σ o)          -- the source: see `MOp.unspecified`
 
 /-- did the call return? -/
 def returned (cfg : Cfg) (s : St α) (x : MOp α × List Nat) : Bool :=
@@ -405,6 +417,36 @@ theorem step_tracks (cfg : Cfg) (U : List Nat) (hpol : StrongPolicy cfg) (s : St
         · rw [upd_other _ _ _ _ hdo]; exact hoth d hd hdo _ (ht0 d hd)
       · have : d ≠ c ∧ d ≠ o := by simpa [MOp.targets] using hd
         rw [upd_other _ _ _ _ this.2]
+  | moveAssign c o =>
+    obtain ⟨hc, ho, hco, hnull, hal⟩ := hv
+    have hoc : o ≠ c := fun e => hco e.symm
+    rw [← hh0] at hnull hal
+    have h := SysAll.moveAssign hs0 hc ho hco hnull hal
+    cases hr : SvModel.moveAssign cfg c o w0 with
+    | ok r w' =>
+      rw [hr] at h; simp only [MOp.run, hr]
+      obtain ⟨_, hc', ⟨ys, hy⟩, hoth⟩ := h
+      refine ⟨fun _ => ⟨upd (upd σ c (σ o)) o ys, fun d hd => ?_, fun d hd => ?_⟩, fun h' => by cases h'⟩
+      · have : d ≠ o := by simpa [MOp.unspecified] using hd
+        simp only [MOp.spec]; rw [upd_other _ _ _ _ this]
+      · by_cases hdo : d = o
+        · rw [hdo, upd_same]; exact hy
+        · rw [upd_other _ _ _ _ hdo]
+          by_cases hdc : d = c
+          · rw [hdc, upd_same]; exact hc' _ (ht0 o ho)
+          · rw [upd_other _ _ _ _ hdc]; exact hoth d hd hdc hdo _ (ht0 d hd)
+    | thrown e w' =>
+      rw [hr] at h; simp only [MOp.run, hr]
+      obtain ⟨_, ⟨zs, hz⟩, ⟨ys, hy⟩, hoth⟩ := h
+      refine ⟨(fun h' => by cases h'), fun _ => ⟨upd (upd σ c zs) o ys, fun d hd => ?_, fun d hd => ?_⟩⟩
+      · by_cases hdo : d = o
+        · rw [hdo, upd_same]; exact hy
+        · rw [upd_other _ _ _ _ hdo]
+          by_cases hdc : d = c
+          · rw [hdc, upd_same]; exact hz
+          · rw [upd_other _ _ _ _ hdc]; exact hoth d hd hdc hdo _ (ht0 d hd)
+      · have : d ≠ c ∧ d ≠ o := by simpa [MOp.targets] using hd
+        rw [upd_other _ _ _ _ this.2, upd_other _ _ _ _ this.1]
 
 /-- the std::vector side of a history in which every call returned -/
 def specAll : List (MOp α) → (Nat → List (Val α)) → Nat → List (Val α)
@@ -555,5 +597,36 @@ example : let s := run Ex.cfgT ⟨initWorld 2 3, []⟩ (exMove.take 7)
     (s.w.mem (s.w.hdr 1).data).take (s.w.hdr 1).size = [.obj .husk, .obj .husk, .obj (.val 7)] ∧
     (s.w.mem (s.w.hdr 0).data).take (s.w.hdr 0).size = [.obj (.val 8)] ∧
     (s.w.mem (s.w.hdr 3).data).take (s.w.hdr 3).size = [.obj .husk, .obj (.val 6)] := by decide +kernel
+
+/-- non-vacuity for move assignment: a steal; an in-place element-wise assignment into a heap destination that throws
+    after one element, then returns; an in-place assignment across inline capacities (3 ← 2); … -/
+def exMA : List (MOp Int × List Nat) :=
+  [(.ctorVals 0 0 [1, 2, 3, 4], []), (.ctorVals 1 0 [5], []), (.moveAssign 1 0, []),
+   (.ctorVals 2 0 [6, 7, 8], []), (.moveAssign 1 2, [1]), (.moveAssign 1 2, []),
+   (.on 0 (.append [9, 10]), []), (.moveAssign 2 0, []),
+   (.ctorVals 3 0 [11, 12, 13], []), (.on 2 (.clear), []), (.moveAssign 2 3, []),
+   (.dtor 0, []), (.dtor 1, []), (.dtor 2, []), (.dtor 3, [])]
+/-- … the path into the in-object buffer of a heap destination (throwing, then returning: the heap block is released), and
+    the reallocating path (throwing: the new block is given back and the destination is untouched; then returning) -/
+def exMA2 : List (MOp Int × List Nat) :=
+  [(.ctorVals 2 0 [1, 2, 3, 4, 5], []), (.ctorVals 0 0 [6, 7], []), (.moveAssign 2 0, [1]), (.moveAssign 2 0, []),
+   (.ctorVals 3 0 [8, 9, 10], []), (.moveAssign 0 3, [2]), (.moveAssign 0 3, []),
+   (.dtor 0, []), (.dtor 2, []), (.dtor 3, [])]
+
+example : (run Ex.cfgT ⟨initWorld 2 3, []⟩ exMA).A = [] ∧ (run Ex.cfgT ⟨initWorld 2 3, []⟩ exMA).w.live = [] ∧
+    (run Ex.cfgT ⟨initWorld 2 3, []⟩ exMA2).A = [] ∧ (run Ex.cfgT ⟨initWorld 2 3, []⟩ exMA2).w.live = [] := by decide +kernel
+example : let s := run Ex.cfgT ⟨initWorld 2 3, []⟩ (exMA.take 5)
+    returned Ex.cfgT (run Ex.cfgT ⟨initWorld 2 3, []⟩ (exMA.take 4)) (.moveAssign 1 2, [1]) = false ∧
+    (s.w.mem (s.w.hdr 2).data).take (s.w.hdr 2).size = [.obj .husk, .obj (.val 7), .obj (.val 8)] ∧
+    (s.w.mem (s.w.hdr 1).data).take (s.w.hdr 1).size = [.obj (.val 6), .obj (.val 2), .obj (.val 3), .obj (.val 4)] := by decide +kernel
+example : let s := run Ex.cfgT ⟨initWorld 2 3, []⟩ (exMA2.take 4)
+    returned Ex.cfgT (run Ex.cfgT ⟨initWorld 2 3, []⟩ (exMA2.take 2)) (.moveAssign 2 0, [1]) = false ∧
+    (s.w.hdr 2).data = (s.w.hdr 2).inl ∧ s.w.live = [] ∧
+    (s.w.mem (s.w.hdr 2).data).take (s.w.hdr 2).size = [.obj .husk, .obj (.val 7)] := by decide +kernel
+example : let s5 := run Ex.cfgT ⟨initWorld 2 3, []⟩ (exMA2.take 5)
+    let s6 := run Ex.cfgT ⟨initWorld 2 3, []⟩ (exMA2.take 6)
+    let s7 := run Ex.cfgT ⟨initWorld 2 3, []⟩ (exMA2.take 7)
+    returned Ex.cfgT s5 (.moveAssign 0 3, [2]) = false ∧ s6.w.live = [] ∧ s6.w.hdr 0 = s5.w.hdr 0 ∧
+    s7.w.live.length = 1 ∧ (s7.w.mem (s7.w.hdr 0).data).take (s7.w.hdr 0).size = [.obj .husk, .obj (.val 9), .obj (.val 10)] := by decide +kernel
 
 end SvModel.System
